@@ -35,6 +35,7 @@ type absFile struct {
 	Syms   []absSym `json:"syms"`
 	Exts   []absExt `json:"exts"`
 	Deps   []string `json:"deps"`
+	Pad    int      `json:"pad"` // that many further messages Pad<i>_<id>, declared first, not in Syms
 	Usable bool     `json:"usable"`
 }
 
@@ -67,6 +68,9 @@ func render(f *absFile) string {
 	for _, d := range f.Deps {
 		fmt.Fprintf(&sb, "import %q;\n", pathOf(d))
 	}
+	for i := 1; i <= f.Pad; i++ {
+		fmt.Fprintf(&sb, "message %s {}\n", padName(f, i))
+	}
 	syms := append([]absSym(nil), f.Syms...)
 	sort.Slice(syms, func(i, j int) bool { return dotted(syms[i].N) < dotted(syms[j].N) })
 	for _, s := range syms {
@@ -89,6 +93,8 @@ func render(f *absFile) string {
 	}
 	return sb.String()
 }
+
+func padName(f *absFile, i int) string { return fmt.Sprintf("Pad%d_%s", i, f.ID) }
 
 func loadUniverse(line []byte) (*universe, error) {
 	var u struct {
@@ -254,6 +260,9 @@ func (un *universe) crossCheck(f *absFile, fd protoreflect.FileDescriptor) error
 	want := map[string]bool{}
 	for _, s := range f.Syms {
 		want[dotted(s.N)] = true
+	}
+	for i := 1; i <= f.Pad; i++ {
+		want[dotted(append(append([]string(nil), f.Pkg...), padName(f, i)))] = true
 	}
 	got := map[string]bool{}
 	var exts []string
